@@ -83,6 +83,12 @@ type RunReq struct {
 	// UniMethodsFirst: ask MethodsOf before any other accessor of a package (answers must not depend on the order of questions)
 	UniMethodsFirst bool `json:"uni_methods_first,omitempty"`
 	ReadSum         bool `json:"read_sum,omitempty"` // report sumfile.Load(root) after the run
+	// DriverFailsOnce: the first invocation of the package driver in this request fails (a transient
+	// go list failure); later invocations work normally.
+	DriverFailsOnce bool `json:"driver_fails_once,omitempty"`
+	// RetrySameExecutor: if Execute fails, call Execute once more on the SAME executor (a caller's retry
+	// loop); the report then describes the second call, FirstExecErr holds the first error.
+	RetrySameExecutor bool `json:"retry_same_executor,omitempty"`
 	NoEvents        bool `json:"no_events,omitempty"`
 }
 
@@ -132,6 +138,9 @@ type RunResp struct {
 	ID       int                       `json:"id"`
 	LoadErr  string                    `json:"load_err,omitempty"`
 	ExecErr  string                    `json:"exec_err,omitempty"`
+	// FirstExecErr / FirstExecuted: what the first of two Execute calls on one executor did.
+	FirstExecErr  string   `json:"first_exec_err,omitempty"`
+	FirstExecuted []string `json:"first_executed,omitempty"`
 	Panic    string                    `json:"panic,omitempty"`
 	Events   []Event                   `json:"events,omitempty"`
 	Fired    []string                  `json:"fired,omitempty"` // faults that fired, as "index:kind"
